@@ -123,6 +123,16 @@ func lockBalance(e *LockEngine, fns []*ssa.Function) lbResult {
 // module callee that returns holding them).
 func lbOwnAcquires(e *LockEngine, fn *ssa.Function) map[string]bool {
 	own := map[string]bool{}
+	defer func() {
+		// a lock that some path releases before acquiring it is held at entry
+		// by contract (an unlock/relock window inside a caller's section): its
+		// state at entry is the caller's business, not an own acquire
+		if s := e.summaries[origin(fn)]; s != nil {
+			for id := range s.released {
+				delete(own, id)
+			}
+		}
+	}()
 	for _, b := range fn.Blocks {
 		for _, in := range b.Instrs {
 			c, ok := in.(ssa.CallInstruction)
